@@ -1,6 +1,10 @@
-(* extraction of the C18 executable model (make_title_case); ExtrOcamlBasic only *)
+(* extraction of the C18 executable models: make_title_case over a given token list (TitleCase.v) and
+   make_title_case_str end to end (C18Str.v over C02's Lexer.v / Condense.v); ExtrOcamlBasic only.
+   The Unicode predicates of the lexer are the fields of the record `uni` (constructor mkuni): the driver
+   fills them from the range tables the harness dumps from Rust's own char methods. *)
 Require Extraction.
 Require Import ExtrOcamlBasic.
-Require Import Base TitleCase.
+Require Import Base Overlap Tables_lexer Lexer Condense TitleCase C18Str.
 Extraction Language OCaml.
-Extraction "../ocaml/gen/c18_model.ml" run_title_case run_missing_keys.
+Extraction "../ocaml/gen/c18_model.ml" run_title_case run_missing_keys
+  mkuni run_title_case_str run_document_tokens run_str_missing_keys.
